@@ -40,6 +40,11 @@ def sid_strings(ctx):
             # the longest well-formed SID strings: 15 ten-digit sub-authorities, maximal authority, leading zeros
             "S-1-5" + "-4294967295" * 15, "S-9-281474976710655" + "-4294967295" * 15, "S-1-281474976710655" + "-4294967294" * 14 + "-1",
             "S-1-5" + "-0000000000000000000000001" * 15, "S-1-000000000000000000005-18"]
+    # near-misses whose longest-possible well-formed PREFIX (184 characters) is followed by more: trailing white space, a 16th
+    # sub-authority, a sign — a grammar check that stops at the maximum length would let the rest through to int()
+    longest = "S-1-281474976710655" + "-4294967295" * 15
+    out += [longest + x for x in ("\n", " ", "\t", "\r\n", "-7", "-0", "0", "-", "x", "\x00", " 1", "\u00a0")]
+    out += ["S-1-5" + "-00000000001" * 15 + x for x in ("-7", "\n", "")] + ["S-1-5" + "-0000000001" * 15 + x for x in ("-7", "\n", " ")]
     return out
 
 
